@@ -319,6 +319,75 @@ pub fn worker(w: &mut Worker) {
         }
     }
 
+    // Phase B3: a wide one-character alphabet in a few positions: every printable ASCII character,
+    // the upper half of Latin-1, every Unicode white-space character, and for every character that
+    // means something to the scanner the characters of other planes that share its low byte (what a
+    // narrowing cast or a byte-indexed table would confuse with it)
+    {
+        let mut chars: Vec<char> = (0x21u32..0x7f).filter_map(char::from_u32).collect();
+        chars.extend((0xa0u32..0x100).filter_map(char::from_u32));
+        chars.extend(crate::util::UNICODE_WHITE_SPACE.iter().copied().filter(|c| !matches!(c, ' ' | '\n' | '\r')));
+        for syntax in [' ', '\t', '\n', '\r', '"', '#', '\\', '=', ':', '!', '$', '%', '{', '}'] {
+            for plane in [0x100u32, 0x400, 0x2000, 0x2100, 0x3000, 0xff00, 0x1f600, 0xe0000] {
+                if let Some(c) = char::from_u32(plane + syntax as u32) {
+                    chars.push(c);
+                }
+            }
+        }
+        chars.sort();
+        chars.dedup();
+        let styles: Vec<Style> = [false, true]
+            .iter()
+            .flat_map(|q| ["", " # c", " "].iter().map(move |trail| Style { quote_optional: *q, sep: 1, lead: "", trail, eq: 0, raw_tab: false }))
+            .collect();
+        for c in chars {
+            let mut arg_lists: Vec<Vec<String>> = vec![
+                vec![c.to_string()],
+                vec![format!("a{}", c)],
+                vec![format!("{}a", c)],
+                vec![format!("a{}b", c)],
+                vec![format!("a b{}", c)],
+                vec![format!("{} a b", c)],
+                vec![format!("{}{}", c, c)],
+                vec![c.to_string(), c.to_string()],
+                vec!["x".into(), c.to_string(), "y".into()],
+                vec!["x".into(), format!("p {} q", c), "y".into()],
+            ];
+            if c == '\t' {
+                arg_lists.clear(); // TAB has its own style switch in the other phases
+            }
+            for args in arg_lists {
+                for (l, o) in shapes {
+                    let i = Instr { label: l.map(String::from), output: o.map(String::from), command: Some("cmd".into()), args: args.clone() };
+                    for st in &styles {
+                        if is_dup_style(&i, st) {
+                            continue;
+                        }
+                        if w.take() {
+                            check_line(w, &i, st);
+                        }
+                    }
+                }
+            }
+            // inside the names too, where the character is not one of the ASCII ones with a meaning there
+            if !c.is_ascii() && !c.is_whitespace() {
+                for (l, o, cmd) in [
+                    (None, None, format!("k{}d", c)),
+                    (Some(format!(":l{}", c)), Some("x".to_string()), "cmd".to_string()),
+                    (None, Some(format!("o{}", c)), "cmd".to_string()),
+                    (Some(format!(":{}", c)), Some(format!("{}", c)), format!("{}", c)),
+                ] {
+                    let i = Instr { label: l, output: o, command: Some(cmd), args: vec!["a".into(), c.to_string()] };
+                    for st in &styles {
+                        if w.take() {
+                            check_line(w, &i, st);
+                        }
+                    }
+                }
+            }
+        }
+    }
+
     // Phase C: scripts of n lines: order and 1-based line numbers, LF and CRLF, final newline or not.
     let line_pool: Vec<(String, PI)> = {
         let mk = |l: Option<&str>, o: Option<&str>, c: Option<&str>, args: &[&str], st: Style| {
@@ -456,7 +525,7 @@ pub fn crash_sig(_case: &Value, kind: &str) -> String {
     kind.to_string()
 }
 
-pub const RULE: &str = "enumeration (no duplicates by construction): A) every instruction shape (label x output x command, 64, names with dots, '::', '-', '_', digits and non-ASCII letters) x every rendering style (quote-when-optional, 1|3 separator spaces, 3 leads, 6 trails incl. comments, 4 '=' spacings) x 17 argument lists (up to 8 arguments); B) every argument string up to the length bound over the 16-character alphabet {a n SP \" \\ # = : $ { % TAB LF CR NBSP e-acute}; a TAB inside an argument is written both as \\t and raw, as 1, 2 and 3 arguments, and (strings up to length 3, thorough 4) as the first, middle or last of 4, 6 and 9 arguments, x 3 shapes x 16 styles; D) every line of that pool parsed right after each of six rejected texts on the same thread (what a failed parse leaves behind must not reach the next one); C) every script of up to n lines from a pool of 12 lines x LF/CRLF x final line break. Oracle: parse_text(render(i)) == i. A case is non-trivial when a label or output is present or an argument needs quoting or escaping; states = distinct outcome classes (shape, argument count, character classes per argument), transitions = parse_text calls";
+pub const RULE: &str = "enumeration (no duplicates by construction): A) every instruction shape (label x output x command, 64, names with dots, '::', '-', '_', digits and non-ASCII letters) x every rendering style (quote-when-optional, 1|3 separator spaces, 3 leads, 6 trails incl. comments, 4 '=' spacings) x 17 argument lists (up to 8 arguments); B) every argument string up to the length bound over the 16-character alphabet {a n SP \" \\ # = : $ { % TAB LF CR NBSP e-acute}; a TAB inside an argument is written both as \\t and raw, as 1, 2 and 3 arguments, and (strings up to length 3, thorough 4) as the first, middle or last of 4, 6 and 9 arguments, x 3 shapes x 16 styles; D) every line of that pool parsed right after each of six rejected texts on the same thread (what a failed parse leaves behind must not reach the next one); C) every script of up to n lines from a pool of 12 lines x LF/CRLF x final line break. Oracle: parse_text(render(i)) == i. A case is non-trivial when a label or output is present or an argument needs quoting or escaping; states = distinct outcome classes (shape, argument count, character classes per argument), transitions = parse_text calls Phase B3: 413 single characters (printable ASCII, upper Latin-1, every Unicode white-space character, the characters of eight other planes that share the low byte of a syntax character) x ten argument positions (alone, leading, trailing, inside, next to a blank, doubled, between plain arguments) x 3 line shapes x 6 styles, and inside command, label and output names";
 pub const ASSUMPTIONS: &[&str] = &["characters outside the alphabet behave like 'a' or 'e-acute' (the scanner has no other special characters)", "names are restricted to the listed labels/outputs/commands"];
 pub const EXHAUSTIVE: bool = true;
 pub const WALL_CAP_S: (u64, u64) = (50, 1500);
